@@ -209,7 +209,7 @@ MUTANTS = [
     dict(id="window-count-unfiltered", module=_T, old="				def fn(vals):\n					return sum(1 for v in vals if v is not None)",
          new="				def fn(vals):\n					return sum(1 for v in vals)", rules=["c.aggregators", "c.siblings"]),
     dict(id="aggregate-stdev-population", module=_T,
-         old="					variance = sum((v - mean_val) ** 2 for v in clean) / (n - 1)", new="					variance = sum((v - mean_val) ** 2 for v in clean) / n",
+         old="					variance = sum((v - mean_val) * (v - mean_val) for v in clean) / (n - 1)", new="					variance = sum((v - mean_val) * (v - mean_val) for v in clean) / n",
          rules=["c.aggregators", "c.siblings"]),
     dict(id="fillna-validates-object-vectors", module=_V, old="		if dtype is not None and value is not None and dtype.kind is not object:",
          new="		if dtype is not None and value is not None:", rules=["d.na-triple"],
@@ -226,8 +226,8 @@ MUTANTS = [
          old="			result_values = tuple(None if x is None else op_func(x, other) for x in self._underlying)",
          new="			result_values = tuple(op_func(x, other) for x in self._underlying)", rules=["a.arith-kernels"]),
     dict(id="dropna-keeps-falsy-out", module=_V,
-         old="		return Vector(tuple(elem for elem in self._underlying if elem is not None), dtype=self._dtype.with_nullable(False))",
-         new="		return Vector(tuple(elem for elem in self._underlying if elem), dtype=self._dtype.with_nullable(False))", rules=["d.na-triple"]),
+         old="		return Vector(tuple(elem for elem in self._underlying if elem is not None),\n			dtype=self._dtype.with_nullable(False) if self._dtype is not None else None)",
+         new="		return Vector(tuple(elem for elem in self._underlying if elem),\n			dtype=self._dtype.with_nullable(False) if self._dtype is not None else None)", rules=["d.na-triple"]),
     dict(id="aggregate-min-empty-zero", module=_T,
          old="					clean = [v for v in vals if v is not None]\n					return min(clean) if clean else None",
          new="					clean = [v for v in vals if v is not None]\n					return min(clean) if clean else 0", rules=["c.aggregators"], count=2, nth=0),
